@@ -6,7 +6,10 @@ Three independent pieces, all trusted harness code (DESIGN.md section 6-4):
 * `StepSerial`    - a fake `serial.Serial`.  Everything the code under test writes is logged line by
                     line; `readline()` blocks on a queue the harness feeds, and `feed(line)` returns
                     only after the reader thread has *processed* the line (it is back in `readline()`),
-                    so replies can be released one at a time without settle timers.
+                    so replies can be released one at a time without settle timers.  Like pyserial it
+                    honours a read time-out: nothing arriving within `poll` seconds makes `readline()`
+                    return b"" (counted in `timeouts`); `wait_timeouts(k)` lets the reader run into k
+                    consecutive time-outs - a device that takes long to answer.
 * `SleepGate`     - replaces `time.sleep` inside `gscrib.printrun.printcore` for the named threads:
                     the 1 ms poll `while ... not self.clear: time.sleep(0.001)` parks on the gate and
                     re-checks `clear` only when the harness calls `wake()`.  This realises the model's
@@ -113,6 +116,9 @@ class StepSerial:
         self.entered = 0  # readline() calls started
         self.delivered = 0  # lines handed to the reader
         self.entered_at_delivery = 0
+        self.timeouts = 0  # readline() calls that returned b"" because nothing arrived within `poll`
+        self.entered_at_timeout = 0
+        self.reader = None  # ident of the thread that called readline() last
         self.on_write = None  # callable(line) run in the writer's thread (timed mode: the firmware)
         self.events: list[tuple] = []  # ("w", line) / ("r", line), in real order
         StepSerial.last = self
@@ -140,10 +146,15 @@ class StepSerial:
     def readline(self) -> bytes:
         with self.cv:
             self.entered += 1
+            self.reader = threading.get_ident()
             self.cv.notify_all()
         try:
             item = self.rxq.get(timeout=self.poll)
         except queue.Empty:
+            with self.cv:
+                self.timeouts += 1
+                self.entered_at_timeout = self.entered
+                self.cv.notify_all()
             return b""
         if item is None:
             return b""
@@ -169,6 +180,17 @@ class StepSerial:
                 lambda: self.delivered >= target and self.entered > self.entered_at_delivery, timeout
             ):
                 raise StepTimeout(f"reader thread did not process {line!r} within {timeout}s")
+
+    def wait_timeouts(self, k: int, timeout: float | None = None):
+        """nothing arrives for k read time-outs: returns when the reader thread has run into k further
+        (hence consecutive) time-outs and has come back to readline() after the last of them"""
+        timeout = timeout if timeout is not None else 5.0 + 3 * k * self.poll
+        with self.cv:
+            target = self.timeouts + k
+            if not self.cv.wait_for(
+                lambda: self.timeouts >= target and self.entered > self.entered_at_timeout, timeout
+            ):
+                raise StepTimeout(f"reader thread did not run into {k} read time-outs within {timeout}s")
 
     def wait_writes(self, n: int, timeout: float = 5.0):
         with self.cv:
@@ -244,6 +266,46 @@ class _TimeShim:
         return getattr(_time, name)
 
 
+# --------------------------------------------------------------------------- connection options
+DEFAULT_CONN = dict(port="/dev/fake", baud=115200, dtr=None, how="connect")
+CONN_HOWS = ("connect", "ctor", "split", "reconnect")
+
+
+def open_connection(pc_mod, conn=None, cls=None):
+    """Build a printcore (or `cls`) and connect it to a serial port the way `conn` says - everything
+    `printcore.connect(port, baud, dtr)` / `printcore(port, baud, dtr)` accept:
+
+      port, baud   any serial port name and rate
+      dtr          None (argument not given) / False / True
+      how          connect    printcore(); connect(port, baud[, dtr])
+                   ctor       printcore(port, baud[, dtr])            (the constructor connects)
+                   split      printcore(); connect(port); connect(baud=baud[, dtr])
+                   reconnect  connect(port, baud[, first_dtr]); disconnect(); connect([dtr])
+    """
+    c = dict(DEFAULT_CONN, **(conn or {}))
+    cls = cls or pc_mod.printcore
+    port, baud, dtr, how = c["port"], c["baud"], c["dtr"], c["how"]
+    kw = {} if dtr is None else {"dtr": dtr}
+    if how == "connect":
+        core = cls()
+        core.connect(port, baud, **kw)
+    elif how == "ctor":
+        core = cls(port, baud, **kw)
+    elif how == "split":
+        core = cls()
+        core.connect(port)
+        core.connect(baud=baud, **kw)
+    elif how == "reconnect":
+        core = cls()
+        first = c.get("first_dtr")
+        core.connect(port, baud, **({} if first is None else {"dtr": first}))
+        core.disconnect()
+        core.connect(**kw)
+    else:
+        raise ValueError(f"unknown way to connect: {how!r}")
+    return core
+
+
 # --------------------------------------------------------------------------- session
 class PrintcoreSession:
     def __init__(self, core, ser: StepSerial, gate: SleepGate):
@@ -255,9 +317,12 @@ class PrintcoreSession:
 
 
 @contextmanager
-def printcore_session(gate_threads=("print thread",), factory=None, handshake_reply="ok"):
+def printcore_session(gate_threads=("print thread",), factory=None, handshake_reply="ok", conn=None,
+                      read_timeout=None):
     """A connected, online `printcore` (or whatever `factory(printcore_module)` builds and connects)
-    on a `StepSerial`.  The gate is created un-armed; call `ses.gate.arm()` to start stepping."""
+    on a `StepSerial`.  The gate is created un-armed; call `ses.gate.arm()` to start stepping.
+    `conn`: connection options, see `open_connection`.  `read_timeout`: the fake port's read time-out
+    in seconds for this session (the scaled-down image of the 0.25 s `Device` asks pyserial for)."""
     import importlib
 
     pc_mod = importlib.import_module("gscrib.printrun.printcore")  # the module, not the re-exported class
@@ -265,6 +330,9 @@ def printcore_session(gate_threads=("print thread",), factory=None, handshake_re
     logging.getLogger(pc_mod.__name__).disabled = True
     gate = SleepGate(gate_threads)
     core = None
+    old_poll = StepSerial.poll
+    if read_timeout is not None:
+        StepSerial.poll = read_timeout
     with mock.patch("serial.Serial", StepSerial), mock.patch(
         "gscrib.printrun.device.Device._disable_ttyhup", lambda self: None
     ), mock.patch.object(pc_mod, "time", _TimeShim(gate)):
@@ -272,8 +340,7 @@ def printcore_session(gate_threads=("print thread",), factory=None, handshake_re
             if factory:
                 core = factory(pc_mod)
             else:
-                core = pc_mod.printcore()
-                core.connect("/dev/fake", 115200)
+                core = open_connection(pc_mod, conn)
             ser = StepSerial.last
             if ser is None or core.printer is None:
                 raise StepTimeout("the code under test did not open the serial port")
@@ -293,3 +360,4 @@ def printcore_session(gate_threads=("print thread",), factory=None, handshake_re
                 except Exception:
                     pass
             StepSerial.last = None
+            StepSerial.poll = old_poll
